@@ -141,6 +141,7 @@ class Pool:
         """Run all tasks; returns list of (status, payload) in task order."""
         n = len(tasks)
         results = [None] * n
+        self.prefix = {}
         if n == 0:
             return results
         self.workers = [self._spawn() for _ in range(min(self.nproc, n))]
@@ -152,6 +153,9 @@ class Pool:
                 if w["busy"] is None and nxt < n:
                     w["conn"].send((nxt, tasks[nxt]))
                     w["busy"] = nxt
+                    # the tasks this worker process ran before this one: the incidental *history* of the execution
+                    self.prefix[nxt] = list(w.setdefault("ran", []))
+                    w["ran"].append(nxt)
                     w["t0"] = time.time()
                     nxt += 1
             ready = mp.connection.wait([w["conn"] for w in self.workers if w["busy"] is not None], timeout=1.0)
@@ -194,6 +198,7 @@ class Pool:
             pass
         w["proc"].join(timeout=2)
         new = self._spawn()
+        new["ran"] = []
         w.update(new)
 
 
@@ -214,6 +219,7 @@ def explore(mod, tier, seed, log=print):
     pool = Pool(mod.__name__)
     timeout = TASK_TIMEOUT if tier == "quick" else max(TASK_TIMEOUT, 7200.0)
     raw = pool.map(tasks, progress=lambda d, n: log("[%s] %d/%d tasks (%.0f s)" % (mod.ID, d, n, time.time() - t0)), timeout=timeout)
+    prefix = dict(pool.prefix)
     # determinism self-check: seed-chosen 2 % (at least 3) of the tasks are re-executed in other workers
     import random
     rng = random.Random(seed)
@@ -241,6 +247,7 @@ def explore(mod, tier, seed, log=print):
                 v = dict(v)
                 v["task_index"] = i
                 v["task"] = tasks[i]
+                v["prefix_idx"] = list(prefix.get(i, []))
                 v["vkey"] = vkey(v)
                 agg["violations"].append(v)
             for cname, cval in r["counters"].items():
@@ -258,4 +265,5 @@ def explore(mod, tier, seed, log=print):
             agg["results"].append(None)
     agg["wall"] = time.time() - t0
     agg["task_list"] = tasks
+    agg["prefix"] = prefix
     return agg
